@@ -2271,3 +2271,48 @@ func keysOfBool(m map[string]bool) []string {
 	sort.Strings(ks)
 	return ks
 }
+
+// ---------------------------------------------------------------------------------------------------------------------
+// C16: a kept service keeps its base service. The base is either in another file (Service.Reference set) or in the same
+// file (only Service.Extends set). Rule: in markService the test of svc.Reference has a recursive markService call on both
+// of its branches.
+func c16baseMarkedBothWays(c *core.Check) {
+	rel := "tool/trimmer/trim"
+	fd := c.Prog.FuncDecl(rel, "Trimmer.markService")
+	key := rel + ".(Trimmer).markService/extends"
+	if fd == nil {
+		c.Unknown("anchor", key, "", "missing")
+		return
+	}
+	info := c.Prog.Pkg(rel).TypesInfo
+	self := info.Defs[fd.Name]
+	recurses := func(n ast.Node) bool {
+		if n == nil {
+			return false
+		}
+		found := false
+		ast.Inspect(n, func(x ast.Node) bool {
+			if call, ok := x.(*ast.CallExpr); ok {
+				if fn := rules.Callee(info, call); fn != nil && types.Object(fn) == self {
+					found = true
+				}
+			}
+			return true
+		})
+		return found
+	}
+	var test *ast.IfStmt
+	ast.Inspect(fd.Body, func(n ast.Node) bool {
+		if is, ok := n.(*ast.IfStmt); ok && strings.Contains(strings.ReplaceAll(rules.ExprString(is.Cond), " ", ""), ".Reference!=nil") && recurses(is.Body) {
+			test = is
+		}
+		return true
+	})
+	if test == nil {
+		c.Unknown("base-service-kept", key, c.Prog.Rel(fd.Pos()), "no branch that follows a base service through Service.Reference")
+		return
+	}
+	c.Decide(test.Else != nil && recurses(test.Else), "base-service-kept", key, c.Prog.Rel(test.Pos()),
+		"the base service is marked through the reference and, when there is none, by name in the same file",
+		"the base service is only followed through Service.Reference: a base defined in the same (included) file is not marked, is trimmed away, and re-resolution fails with 'base service not found'")
+}
